@@ -181,6 +181,13 @@ func (e *Effects) scan(record bool) bool {
 							if len(cc.Args) > 0 {
 								note(e.RootOf(cc.Args[0]), x.Pos(), bi.Name())
 							}
+						case "append":
+							// appending onto a shortened re-slice (x[:0], x[:k]) writes into x's backing array
+							if len(cc.Args) > 0 {
+								if sl := ShortenedSlice(cc.Args[0]); sl != nil {
+									note(e.RootOf(sl.X), x.Pos(), "append onto a shortened re-slice (overwrites the backing array)")
+								}
+							}
 						}
 						continue
 					}
@@ -224,6 +231,40 @@ func (e *Effects) scan(record bool) bool {
 		}
 	}
 	return changed
+}
+
+// ShortenedSlice: v is (through phis and earlier appends) a re-slice x[:k] of some x, so that an append onto it
+// overwrites elements of x's backing array.
+func ShortenedSlice(v ssa.Value) *ssa.Slice {
+	seen := map[ssa.Value]bool{}
+	var walk func(v ssa.Value, depth int) *ssa.Slice
+	walk = func(v ssa.Value, depth int) *ssa.Slice {
+		if v == nil || seen[v] || depth > 8 {
+			return nil
+		}
+		seen[v] = true
+		switch x := v.(type) {
+		case *ssa.Slice:
+			if x.High != nil {
+				if _, isArr := x.X.Type().Underlying().(*types.Pointer); !isArr {
+					return x
+				}
+			}
+			return nil
+		case *ssa.Phi:
+			for _, ed := range x.Edges {
+				if s := walk(ed, depth+1); s != nil {
+					return s
+				}
+			}
+		case *ssa.Call:
+			if b, ok := x.Call.Value.(*ssa.Builtin); ok && b.Name() == "append" && len(x.Call.Args) > 0 {
+				return walk(x.Call.Args[0], depth+1)
+			}
+		}
+		return nil
+	}
+	return walk(v, 0)
 }
 
 // WritesThrough lists the places where fn itself (or a callee summary) writes
